@@ -160,7 +160,7 @@ func storeCrash(c *harness.Ctx, i int) {
 	dsu.Must(dsu.WriteIndex(idxFile, idx))
 	cfgFile := filepath.Join(dir, "config.json")
 	dsu.WriteFile(cfgFile, []byte(fmt.Sprintf(`{"store-options": {%q: {"uncompressed": %v}}}`, store, uncompressed)))
-	kinds := []string{"partial", "partial", "afterWrite", "beforeRename", "feeder", "sigkill", "pair", "pair"}
+	kinds := []string{"partial", "partial", "afterWrite", "beforeRename", "feeder", "sigkill", "pair", "pair", "full-fs"}
 	if c.Tier == "thorough" {
 		kinds = append(kinds, "strace-write", "strace-rename")
 	}
@@ -188,6 +188,17 @@ func storeCrash(c *harness.Ctx, i int) {
 		fp = fmt.Sprintf("local.store.beforeRename=kill@%d", k)
 	case "feeder":
 		fp = fmt.Sprintf("chop.feeder=kill@%d", k)
+	}
+	if kind == "full-fs" {
+		// not a death but a write cut short by the kernel: the store lives on a file system with room for a part of
+		// the chunks only. Whatever the writer reports, no partial file may sit under a chunk name.
+		pages := 1 + rng.Intn(len(idx.Chunks)+1)
+		if err := syscall.Mount("tmpfs", store, "tmpfs", 0, fmt.Sprintf("size=%dk", 4*pages)); err != nil {
+			kind = "sigkill"
+		} else {
+			defer syscall.Unmount(store, syscall.MNT_DETACH)
+			k = pages
+		}
 	}
 	c.Info("store-crash kind=%s k=%d bytes=%d uncompressed=%v n=%d chunks=%d", kind, k, j, uncompressed, n, len(idx.Chunks))
 	c.LogInfo()
@@ -222,6 +233,13 @@ func storeCrash(c *harness.Ctx, i int) {
 			a.Process.Kill()
 		}
 		err = a.Wait()
+	case "full-fs":
+		cmd := mk(cliPlain, "")
+		err = cmd.Run()
+		childDied = false
+		if err != nil {
+			c.Count("writers_failed_on_full_fs", 1)
+		}
 	case "strace-write", "strace-rename":
 		sc := "write"
 		if kind == "strace-rename" {
@@ -247,6 +265,13 @@ func storeCrash(c *harness.Ctx, i int) {
 		return
 	}
 	// a survivor that reported success must have stored everything
+	if kind == "full-fs" {
+		if err != nil {
+			c.NonTrivial("store|full-fs|u%v|n%d|pages%d", uncompressed, n, k)
+		}
+		c.Sample(map[string]interface{}{"leg": "store-crash", "kind": kind, "fs_pages": k, "uncompressed": uncompressed, "n": n, "writer_exit": fmt.Sprint(err), "chunk_files": chunks})
+		return
+	}
 	if err == nil && kind != "pair" {
 		s, _ := desync.NewLocalStore(store, desync.StoreOptions{Uncompressed: uncompressed})
 		for _, ch := range idx.Chunks {
